@@ -474,6 +474,40 @@ def trajectory_case(api):
             api.check(P + "/script-and-engine (separate_data=%s)" % separate,
                       t2.script.rng_seed == tr.script.rng_seed and t2.script.init_state_processing == tr.script.init_state_processing
                       and t2.engine_description == tr.engine_description and t2.engine_option == tr.engine_option)
+        # a trajectory whose own system is not its script's system (what un-coarse-graining returns: the fine grid next to
+        # the script of the coarse-grained graph): each is written from, and read back into, its own field
+        from strengths.coarsegrain import coarsegrain_system, uncoarsegrain_trajectory
+        from strengths.rdsystem import rdsystem_to_dict
+        from strengths.rdscript import rdscript_to_dict
+        fine = st.RDSystem(net, st.RDGridSpace(w=4, h=1, d=1, cell_env=[0, 0, 1, 1], cell_vol=2, units_system=us), units_system=us)
+        cgmap = [0, 0, 1, 1]
+        coarse = coarsegrain_system(fine, cgmap)
+        tcg = st.UnitArray([0, 1, 2], "min")
+        cgscript = st.RDScript(system=coarse, t_sample=tcg, time_step=0.01, rng_seed=7, units_system=us)
+        ncg = len(coarse.state.value)
+        cgdata = st.UnitArray([float(coarse.state.value[i % ncg]) * (1 + i // ncg) for i in range(3 * ncg)], coarse.state.units)
+        cgtraj = st.RDTrajectory(cgdata, tcg, coarse, script=cgscript, engine_description="none", engine_option="")
+        utr = uncoarsegrain_trajectory(cgtraj, fine, cgmap)
+        for separate in (True, False):
+            path = os.path.join(td, "unc_%s" % separate)
+            r = api.call(lambda: O.save_rdtrajectory(utr, path, separate_data=separate))
+            api.check(P + "/uncoarsegrained/save-ok (separate_data=%s)" % separate, r.ok, "raised %r" % (r.exc,))
+            if not r.ok:
+                continue
+            b = api.call(lambda: O.load_rdtrajectory(path + ".json"))
+            api.check(P + "/uncoarsegrained/load-ok (separate_data=%s)" % separate, b.ok, "raised %r" % (b.exc,))
+            if not b.ok:
+                continue
+            u2 = b.value
+            api.check(P + "/uncoarsegrained/system-is-the-trajectory's-own (separate_data=%s)" % separate,
+                      rdsystem_to_dict(u2.system) == rdsystem_to_dict(utr.system))
+            api.check(P + "/uncoarsegrained/script-is-the-trajectory's-script (separate_data=%s)" % separate,
+                      rdscript_to_dict(u2.script) == rdscript_to_dict(utr.script))
+            api.check(P + "/uncoarsegrained/index-map (separate_data=%s)" % separate,
+                      list(u2.cgmap) == list(utr.cgmap))
+            api.check(P + "/uncoarsegrained/data (separate_data=%s)" % separate,
+                      np.array_equal(np.array(u2.data.value).ravel(), np.array(utr.data.value).ravel())
+                      and str(u2.data.units) == str(utr.data.units))
         # relative path with a directory part, written from one working directory and read from another
         os.makedirs(os.path.join(td, "run", "results"))
         os.chdir(os.path.join(td, "run"))
@@ -494,7 +528,7 @@ CASES = [network_case(0), network_case(1), grid_case(), graph_case((), ()), grap
          graph_case((0, 2), (0, 1)), system_case("grid"), system_case("graph"), script_case("grid"), script_case("graph"),
          json_case("grid"), json_case("graph"), files_case("grid"), files_case("graph"),
          Case("files/trajectory", trajectory_case, functions=["save_rdtrajectory", "load_rdtrajectory"], sym=False,
-              bounded="one simulated trajectory, both storage modes")]
+              bounded="one simulated trajectory and one un-coarse-grained trajectory (system differing from the script's system), both storage modes")]
 # aliases and defaults of the readers: C04's reader cases (which units system a child gets, what a bare number means)
 from props import C04 as _C04
 for _k in ("species", "reaction", "network", "grid", "graph", "system"):
